@@ -46,6 +46,11 @@ def configs(tier):
     for b in repo.BACKENDS:
         for (k, d, m) in triples:
             out.append(repo.Config(b, k, d, m))
+    # fewer key shares than the maximum (arrays sized by the key shares, word type sized by the maximum)
+    extra = [("c64", 2, 2, 4), ("c32", 3, 2, 4)] if tier == "quick" else \
+        [(b, k, d, m) for b in ("c64", "c32", "asm") for (k, d, m) in ((2, 2, 4), (2, 1, 4), (3, 2, 4), (3, 3, 4), (2, 2, 3), (2, 1, 3))]
+    for (b, k, d, m) in extra:
+        out.append(repo.Config(b, k, d, m))
     return out
 
 
@@ -64,18 +69,19 @@ def run(rep, tier):
     groups = [("lib", ("c", "c++"))]
     jobs = []
     for b in builds:
-        jobs.append((b, dict(group="lib", level="O0", tolerate=tuple(u.rel for u in b.group("lib", ("c++",))))))
+        jobs.append((b, dict(group="lib", level="O0", scev=True, tolerate=tuple(u.rel for u in b.group("lib", ("c++",))))))
     # the tools do not depend on the back end: analyse them once
     jobs.append((builds[0], dict(group="asconcrypt", level="O0")))
     jobs.append((builds[0], dict(group="asconsum", level="O0")))
     lowered = repo.lower_many(jobs)
-    for r in ("C12.D1", "C12.D1m", "C12.D2", "C12.D3", "C12.D4", "C12.D6"):
+    for r in ("C12.D1", "C12.D1m", "C12.D2", "C12.D3", "C12.D4", "C12.D6", "C12.D7"):
         rep.rule(r, {"C12.D1": "constant subscript inside its array",
                      "C12.D1m": "constant-extent block operation inside its object/member",
                      "C12.D2": "guard-bounded variable subscript below the array bound",
                      "C12.D3": "strlen(p)-K is guarded",
                      "C12.D4": "shift amount below operand width",
-                     "C12.D6": "constant-extent access fits the guard-bounded remaining length"}[r])
+                     "C12.D6": "constant-extent access fits the guard-bounded remaining length",
+                     "C12.D7": "bytes a callee always accesses through a pointer parameter fit the object passed at each call site"}[r])
     for (b, kw), lr in zip(jobs, lowered):
         m = ir.Module.load(lr.json)
         cname = b.cfg.name if kw["group"] == "lib" else kw["group"]
@@ -99,10 +105,132 @@ def run(rep, tier):
             if dd is not None:
                 rule_output_range(rep, m, f, dd, cname)
         rule_strlen_sub(rep, m, cname)
+        rule_param_extent(rep, m, cname)
     control_d6(rep)
     rep.floor("C12.D1", 2000)
     rep.floor("C12.D1m", 300)
     rep.floor("C12.D2", 20)
+
+
+def rule_param_extent(rep, m, cname):
+    """D7: for every function and pointer parameter, the number of bytes that
+    *every* execution of the function accesses through that parameter (constant
+    offsets in blocks that are always executed; loops with a constant trip count
+    whose header is always executed, address recurrence base + stride * i from
+    scalar evolution; calls in always-executed blocks that pass the parameter on
+    to a callee with such an extent).  At every call site whose argument is a
+    stack or global object of known size (plus a constant offset) the extent
+    must fit.  Accesses that depend on other arguments are ignored: no claim."""
+    rid = "C12.D7"
+    ext = {}
+    for f in m.bottom_up():
+        if f.decl or not f.blocks:
+            continue
+        pidx = {p: k for k, p in enumerate(f.params) if f.param_ty[k].endswith("*")}
+        if not pidx:
+            continue
+        R = ptr.resolver(f)
+        entry = f.blocks[0].name
+        pdom = f.postdominators()
+        always = set(pdom.get(entry, ())) | {entry}
+        dom = f.dominators()
+        e = {}
+
+        def note(k, n, why):
+            if n > e.get(k, (0, None))[0]:
+                e[k] = (n, why)
+        loops = [lp for lp in f.d.get("loops", []) if lp.get("depth") == 1 and lp.get("btc_const") is not None
+                 and len(lp.get("exiting", [])) == 1 and lp["header"] in always]
+        inloop = {}
+        for lp in f.d.get("loops", []):
+            for bn in lp["blocks"]:
+                inloop.setdefault(bn, []).append(lp)
+        for i in f.insts():
+            bn = i.block.name
+            if i.op in ("load", "store"):
+                pv = R.resolve(i.ops[0] if i.op == "load" else i.ops[1])
+                root = pv.single()
+                if not root or root[0] != "param" or root[1] not in pidx or pv.offset is None:
+                    continue
+                k, sz = pidx[root[1]], i.d.get("sz") or 0
+                if not pv.variable and bn in always and bn not in inloop:
+                    note(k, pv.offset + sz, "%s of %d byte(s) at offset %d (%s)" % (i.op, sz, pv.offset, i.where()))
+            elif i.op == "call" and (ptr.is_memset(i) or ptr.is_memcpy(i)) and bn in always and bn not in inloop:
+                n = ir.const_int(i.ops[2])
+                for a in ([i.ops[0]] if ptr.is_memset(i) else [i.ops[0], i.ops[1]]):
+                    pv = R.resolve(a)
+                    root = pv.single()
+                    if n and root and root[0] == "param" and root[1] in pidx and pv.offset is not None and not pv.variable:
+                        note(pidx[root[1]], pv.offset + n, "block operation of %d byte(s) at offset %d (%s)" % (n, pv.offset, i.where()))
+            elif i.op == "call" and i.callee in ext and bn in always and bn not in inloop:
+                for an, a in enumerate(i.ops):
+                    if an in ext[i.callee] and isinstance(a, str):
+                        pv = R.resolve(a)
+                        root = pv.single()
+                        if root and root[0] == "param" and root[1] in pidx and pv.offset is not None and not pv.variable:
+                            n, why = ext[i.callee][an]
+                            note(pidx[root[1]], pv.offset + n, "call of %s (%s), which always accesses %d byte(s): %s" % (
+                                i.callee, i.where(), n, why))
+        for lp in loops:
+            btc = lp["btc_const"]
+            ex = lp["exiting"][0]
+            latches = [p.name for p in f.bmap[lp["header"]].preds if p.name in lp["blocks"]]
+            for rec in lp.get("scev", []):
+                if rec[1] not in ("load", "store"):
+                    continue
+                mm = re.fullmatch(r"\{(?:\((\d+) \+ )?(%[\w.]+)\)?,\+,(\d+)\}(?:<[^>]*>)*", rec[2].strip())
+                if not mm or mm.group(2) not in pidx:
+                    continue
+                base, stride = int(mm.group(1) or 0), int(mm.group(3))
+                ident = rec[0].split("@", 1)[1] if "@" in rec[0] else None
+                acc = None
+                for i in f.insts():
+                    if i.op == rec[1] and i.block.name in lp["blocks"] and (i.ops[0] if i.op == "load" else i.ops[1]) == ident:
+                        acc = i
+                if acc is None:
+                    continue
+                ab = acc.block.name
+                if not all(ab in dom[l] for l in latches):
+                    continue          # not executed in every iteration
+                execs = btc + 1 if ab in dom[ex] else btc
+                if execs <= 0:
+                    continue
+                sz = acc.d.get("sz") or 0
+                note(pidx[mm.group(2)], base + stride * (execs - 1) + sz,
+                     "%s of %d byte(s) in a loop of %d iteration(s) with stride %d (%s)" % (acc.op, sz, execs, stride, acc.where()))
+        if e:
+            ext[f.name] = e
+    # call sites
+    for f in m.defined():
+        if not f.srcfile.startswith(repo.REPO):
+            continue
+        R = None
+        for i in f.insts():
+            if i.op != "call" or i.callee not in ext:
+                continue
+            R = R or ptr.resolver(f)
+            for an, (n, why) in ext[i.callee].items():
+                if an >= len(i.ops) or not isinstance(i.ops[an], str):
+                    continue
+                pv = R.resolve(i.ops[an])
+                root = pv.single()
+                if not root or pv.offset is None or pv.variable:
+                    continue
+                size = None
+                if root[0] == "alloca":
+                    d = f.defs.get(root[1])
+                    size = d.d.get("sz") if d is not None else None
+                elif root[0] == "global":
+                    size = (m.globals.get(root[1].lstrip("@"), {}) or {}).get("size")
+                if not size:
+                    continue
+                if pv.offset + n > size:
+                    rep.violation(rid, "%s->%s:arg%d" % (f.name, i.callee, an), i.where(),
+                                  "%s passes %s (%d byte(s)%s) to %s, which on every execution accesses %d byte(s) through that "
+                                  "parameter: %s" % (f.name, root[1], size, ", at offset %d" % pv.offset if pv.offset else "",
+                                                     i.callee, n, why), config=cname)
+                else:
+                    rep.instance(rid, 1, {"config": cname, "caller": f.name, "callee": i.callee, "object_bytes": size, "extent": n})
 
 
 LEN_NAMES = ("size", "len", "outlen", "inlen", "mlen", "clen", "adlen", "count", "length")
